@@ -140,8 +140,13 @@ def t_m3_noack():
     _w(a, 0x01, 0x3E)
     a.xfer(b"\xa0plain")
     _run(sim, 3 * MS)
-    assert a.stats["tx"] == 2 and b.stats["ack_tx"] == 0 and len(b.rx_fifo) == 2
-    return 3
+    assert a.stats["tx"] == 2 and b.stats["ack_tx"] == 1 and len(b.rx_fifo) == 2, "PRX with auto-ack on the pipe answers although the PTX does not wait"
+    # ... and stays silent once auto-ack is off on the receiving pipe (how the network layer multicasts)
+    _w(b, 0x01, 0x3D)
+    a.xfer(b"\xa0again")
+    _run(sim, 3 * MS)
+    assert a.stats["tx"] == 3 and b.stats["ack_tx"] == 1 and len(b.rx_fifo) == 3
+    return 5
 
 
 def t_m6_ack_payload():
